@@ -9,10 +9,13 @@ from pathlib import Path
 
 VERIF = Path(__file__).resolve().parent.parent
 SPEC = VERIF / "spec"
-HARNESS = VERIF / "harness"
-WORK = VERIF / "work"
-EVID = VERIF / "evidence"
-REPLAYS = VERIF / "replays"
+# Development overrides (never set by the registered commands): a harness copy whose path dependency points
+# at a scratch worktree of /repo, and a separate output directory, so that several trees can be checked at once.
+HARNESS = Path(os.environ.get("VERIF_HARNESS_DIR") or (VERIF / "harness"))
+_OUT = Path(os.environ.get("VERIF_OUT_DIR") or VERIF)
+WORK = _OUT / "work"
+EVID = _OUT / "evidence"
+REPLAYS = _OUT / "replays"
 JAR = "/opt/veriftools/tla/tla2tools.jar:/opt/veriftools/tla/CommunityModules-deps.jar"
 TLA_LIB = ":".join(str(SPEC / d) for d in ("", "lib", "mc", "trace"))
 NCPU = os.cpu_count() or 8
@@ -237,7 +240,7 @@ def split_trace(ctx, trace_path, max_events, stateless, tag):
     path = new(0)
     with open(trace_path) as f:
         for line in f:
-            if n >= max_events and (stateless or line.startswith('{"ev":"reset"')):
+            if n >= max_events and (stateless or ('"ev":"reset"' in line)):
                 path = new(idx)
             cur.write(line)
             n += 1
@@ -327,7 +330,7 @@ def validate_trace(ctx, module, trace_path, stateless=False, chunk_events=40000,
         want = set(bad_lines)
         with open(trace_path) as f:
             for i, line in enumerate(f):
-                is_reset = line.startswith('{"ev":"reset"')
+                is_reset = ('"ev":"reset"' in line)
                 if is_reset:
                     res.scenarios += 1
                     scen = []
@@ -462,7 +465,7 @@ def count_distinct(trace_path, keyfn, nontrivial):
     seen = set()
     with open(trace_path) as f:
         for line in f:
-            if line.startswith('{"ev":"reset"'):
+            if ('"ev":"reset"' in line):
                 continue
             ev = json.loads(line)
             if nontrivial(ev):
